@@ -221,6 +221,11 @@ func (c *Client) getHeaderVerbose(param any) (*result.Header, error) {
 		params = []any{param, 1}
 		resp   = &result.Header{}
 	)
+	sr, err := c.stateRootInHeader()
+	if err != nil {
+		return nil, err
+	}
+	resp.StateRootEnabled = sr
 	if err := c.performRequest("getblockheader", params, resp); err != nil {
 		return nil, err
 	}
